@@ -1039,6 +1039,32 @@ class ClaimMsg:
     def ParseFromString(self, data):
         self.payload = data
 
+    def DiscardUnknownFields(self):
+        # (the repository never calls this; it is here so that code which starts to drop unknown fields is refuted by the
+        # envelope clause "what is parsed re-serialises to the very bytes that were stored" instead of ending in a harness gap)
+        self.payload = drop_unknown_fields(self.payload)
+
+
+UNKNOWN_MARK = b'\xc0\x3e'        # key bytes of protobuf field 1000, wire type 0
+
+
+def drop_unknown_fields(data):
+    """wire model of the stand-in: a serialised message is its known fields followed by the fields the local schema does not know;
+    natively the unknown part starts at the key of field 1000, symbolically it is an uninterpreted prefix-or-whatever of the
+    bytes (nothing is assumed that would make dropping harmless)"""
+    at = data.find(UNKNOWN_MARK)
+    return data if at < 0 else data[:at]
+
+
+PB_KNOWN = z3.Function('protobuf_without_unknown_fields', _S, _S)
+
+
+@model_for(drop_unknown_fields)
+def _m_drop_unknown_fields(interp, st, args, kwargs):
+    t = PB_KNOWN(_flat(args[0]))
+    st.assume(z3.Length(t) <= z3.Length(_flat(args[0])))
+    yield st, VBytes(t)
+
 
 OWNER = b'\x11' * 20
 HOLDER = b'\x22' * 20
@@ -1224,7 +1250,8 @@ class Envelope:
         back0 = EnvelopeClaim.from_bytes(plain)
         c.clear_signature()
         return (raw, (back.signing_channel_hash, back.signature, back.message.payload, back.is_signed, back.unsigned_payload),
-                plain, (back0.signing_channel_hash, back0.signature, back0.message.payload, back0.is_signed), c.to_bytes(), len(back))
+                plain, (back0.signing_channel_hash, back0.signature, back0.message.payload, back0.is_signed), c.to_bytes(), len(back),
+                back.to_message_bytes(), back0.to_message_bytes(), back.to_bytes())
 
     def ensures_layout(chash, signature, payload, result):
         return result[0] == envelope_spec(chash, signature, payload) and result[2] == b'\x00' + payload and result[4] == result[2]
@@ -1233,9 +1260,17 @@ class Envelope:
         return result[1] == (chash, signature, payload, True, None) and result[3] == (None, None, payload, False) \
             and result[5] == 85 + len(payload)
 
+    def ensures_what_was_parsed_reserialises_to_the_stored_message_bytes(payload, result):
+        # the digest is taken over the RE-serialised parsed message: validation judges the claim as stored only if parsing
+        # followed by serialisation gives back every byte, also of fields the local schema does not know
+        return result[6] == payload and result[7] == payload and result[8] == result[0]
+
     def samples():
         for n in (0, 1, 200, 60000):
             yield dict(chash=bytes(range(20)), signature=bytes(range(64)), payload=bytes((i * 7) % 256 for i in range(n)))
+        for tail in (UNKNOWN_MARK + b'\x07', UNKNOWN_MARK + b'\x07\xba\x3e\x03xyz'):       # messages carrying unknown fields
+            yield dict(chash=bytes(range(20)), signature=bytes(range(64)), payload=b'\x0a\x03abc' + tail)
+            yield dict(chash=bytes(range(20)), signature=bytes(range(64)), payload=tail)
 
 
 @proof("C04", "channel.digest-layout-injective")
@@ -1522,14 +1557,25 @@ def rich_claim(kind):
     return c
 
 
-def signable_output(kind, holder):
+def signable_object(kind):
+    if kind.endswith('+unknown'):
+        # the same object re-built from serialised bytes that carry two extra fields (what a newer release would publish)
+        plain = signable_object(kind[:-len('+unknown')])
+        return type(plain).from_bytes(b'\x00' + plain.to_message_bytes() + UNKNOWN_FIELDS)
     if kind == 'support':
         s = Support()
         s.comment = 'well done'
-        return Output.pay_support_data_pubkey_hash(1000, 'foo', 'ab' * 20, s, holder)
-    if kind == 'update':
-        return Output.pay_update_claim_pubkey_hash(1000, 'foo', 'cd' * 20, rich_claim('stream'), holder)
-    return Output.pay_claim_name_pubkey_hash(1000, 'foo', rich_claim(kind), holder)
+        return s
+    return rich_claim('stream' if kind == 'update' else kind)
+
+
+def signable_output(kind, holder):
+    obj, base = signable_object(kind), kind.split('+')[0]
+    if base == 'support':
+        return Output.pay_support_data_pubkey_hash(1000, 'foo', 'ab' * 20, obj, holder)
+    if base == 'update':
+        return Output.pay_update_claim_pubkey_hash(1000, 'foo', 'cd' * 20, obj, holder)
+    return Output.pay_claim_name_pubkey_hash(1000, 'foo', obj, holder)
 
 
 def time_lock_case(variant):
@@ -1705,7 +1751,17 @@ class RealTransactionSign:
 
 
 CHANNEL_CASES = (('stream', 0, None), ('repost', 1, None), ('collection', 0, 'ee' * 20), ('support', 2, None), ('update', 0, None),
-                 ('empty', 1, 'aa' * 20))
+                 ('empty', 1, 'aa' * 20), ('stream+unknown', 0, None), ('support+unknown', 1, 'bb' * 20), ('repost+unknown', 2, None))
+
+# fields no schema of this release knows (a newer release added them): field 1000 = varint 7, field 999 = bytes 'xyz'
+UNKNOWN_FIELDS = b'\xc0\x3e\x07' + b'\xba\x3e\x03xyz'
+
+
+def replace_signable(script, old, new):
+    """the script with the pushed claim / support bytes `old` replaced by `new` (push header re-encoded)"""
+    at = script.find(old)
+    header = len(push_data_spec(old)) - len(old)
+    return script[:at - header] + push_data_spec(new) + script[at + len(old):]
 
 
 @proof("C04", "real.channel-sign")
@@ -1715,9 +1771,10 @@ class RealChannelSign:
     signature and of the first input's outpoint, another channel key, a channel with the same name but another key, exchanged
     inputs, an out-of-range signature and an API-level content change stop validating"""
     bounded_only = True
-    note = "6 signed objects (rich stream, repost, collection, support, update, empty stream) x channels that are new claims at " \
-           "index 0..2 or updates x all single-bit mutations (about 1200..3000 per object)"
-    inputs = dict(case=TInt(0, 5))
+    note = "9 signed objects (rich stream, repost, collection, support, update, empty stream; stream, support and repost whose " \
+           "message carries fields unknown to this release's schema) x channels that are new claims at index 0..2 or updates x " \
+           "all single-bit mutations (about 1200..3000 per object) + an unknown field appended after signing"
+    inputs = dict(case=TInt(0, 8))
 
     def run(case):
         kind, position, updated_id = CHANNEL_CASES[case]
@@ -1727,8 +1784,10 @@ class RealChannelSign:
         f1 = Transaction().add_outputs([Output.pay_pubkey_hash(10 ** 8, b'\x32' * 20) for _ in range(3)]).outputs[2]
         f2 = Transaction().add_outputs([Output.pay_pubkey_hash(10 ** 8, b'\x35' * 20)]).outputs[0]
         tx = Transaction().add_inputs([Input.spend(f1), Input.spend(f2)]).add_outputs([Output.pay_pubkey_hash(5, b'\x36' * 20), txo])
-        txo.sign(channel)
         problems = []
+        if kind.endswith('+unknown') and not txo.signable.to_message_bytes().endswith(UNKNOWN_FIELDS):
+            problems.append('harness: the unknown fields did not survive parsing (the case does not exercise what it claims)')
+        txo.sign(channel)
         if not validates(txo, channel):
             problems.append('does not validate right after signing')
         raw = bytes(tx._serialize())
@@ -1743,6 +1802,18 @@ class RealChannelSign:
         at = script.find(env)
         regions = dict(message=(at + 85, len(env) - 85), channel_hash=(at + 1, 20), signature=(at + 21, 64))
         survivors = []
+        if kind.endswith('+unknown') and not env.endswith(UNKNOWN_FIELDS):
+            problems.append('the unknown fields of the signed message are not in the published script')
+        # content added after signing: a field this release's schema does not know, appended to the signed message
+        for extra in (b'\xc0\x3e\x07', b'\xba\x3e\x03xyz', UNKNOWN_FIELDS, b'\xc8\x3e\x00'):
+            o = reparsed_output(version, ins, [outs[0], (outs[1][0], replace_signable(script, env, env + extra))], locktime, 1)
+            if o is not None and validates(o, seen):
+                survivors.append(f'unknown field {extra.hex()} appended to the signed message')
+        if kind.endswith('+unknown'):
+            o = reparsed_output(version, ins, [outs[0], (outs[1][0], replace_signable(script, env, env[:-len(UNKNOWN_FIELDS)]))],
+                                locktime, 1)
+            if o is not None and validates(o, seen):
+                survivors.append('unknown fields of the signed message removed')
         for name, (start, length) in regions.items():
             for bit in range(8 * length):
                 changed = script[:start] + flip_bit(script[start:start + length], bit) + script[start + length:]
@@ -1763,10 +1834,10 @@ class RealChannelSign:
         bad_sig = script[:regions['signature'][0]] + b'\xff' * 64 + script[regions['signature'][0] + 64:]
         if validates(reparsed_output(version, ins, [outs[0], (outs[1][0], bad_sig)], locktime, 1), seen):
             survivors.append('signature ff..ff')
-        if kind == 'support':
+        if txo.is_support:
             txo.support.comment = 'changed'
         else:
-            (txo.claim.repost.reference if kind == 'update' and False else txo.claim).message.title = 'changed'
+            txo.claim.message.title = 'changed'
         if validates(txo, channel):
             survivors.append('content changed through the API')
         return problems + [f'still validates after: {s}' for s in survivors[:5]]
@@ -1775,7 +1846,7 @@ class RealChannelSign:
         return result == []
 
     def samples():
-        for case in range(6):
+        for case in (6, 7, 8, 0, 1, 2, 3, 4, 5):
             yield dict(case=case)
 
 
